@@ -691,7 +691,7 @@ def cworld(world):
 
 
 def cobs(res):
-    imports = clist(res["imports"], lambda p: f"({cstr(p[0])}, {cstr(p[1])})", "import_line")
+    imports = clist(res["imports"], lambda p: f"({cstr(p[0])}, {copt(p[1], cstr)})", "import_line")
     return (f"{{| o_imports := {imports}; o_expr := {copt(res['expr'], cexpr)}; "
             f"o_exec := {copt(res['exec'], cvalue)}; o_equal := {cbool(res['equal'])} |}}")
 
@@ -752,6 +752,7 @@ class X:
             ["any", {"t": "list", "v": [D("NaN"), Q("{u}l"), S("a'b\"c\\\n"), F(float("-inf")), {"t": "tuple", "v": []},
                                         {"t": "tuple", "v": [I(1), S("x")]}, {"t": "set", "frozen": True, "v": [I(3)]},
                                         {"t": "dur", "v": [ord(c) for c in "P1Y\n"]},   # stripped by XmlDuration
+                                        {"t": "std", "k": "datetime", "args": ["2020", "1", "2", "3", "4", "5", "0"]},
                                         {"t": "dict", "v": [[S("k"), {"t": "bytes", "k": "hex", "v": [0, 39]}]]}]}]]}),
     ]
     return {"pkg": "c18wit", "modules": {m1: src, m2: src2}, "cases": [c for _, c in cases]}, [n for n, _ in cases]
@@ -785,8 +786,7 @@ def size_of(v):
 
 # ------------------------------------------------------------------ the check
 CLASSES = [("class_imports", "import-name-collision"),
-           ("class_init", "init-false-field-not-default"),
-           ("class_std", "stdlib-datetime-unqualified")]
+           ("class_init", "init-false-field-not-default")]
 
 
 def run(ck: Check):
